@@ -278,7 +278,7 @@ def _run_proc(exe, data, env, total, stall):
     return (-999 if killed else p.returncode), so, se + (b'\nTIMEOUT' if killed else b'')
 
 
-def run_lines(exe, lines, env_extra=None, timeout=None, stall=45, max_crashes=8):
+def run_lines(exe, lines, env_extra=None, timeout=None, stall=45, max_crashes=8, max_hangs=3):
     """feed lines, one output line per input line.  A crash (sanitizer abort, signal) or a hang is attributed to
     the case after the last complete output line; that case gets 'CRASH …' and the run resumes in a fresh process.  After
     `max_crashes` of them the call returns what it has (the remaining lines are not evaluated): a tree on which every
@@ -292,7 +292,7 @@ def run_lines(exe, lines, env_extra=None, timeout=None, stall=45, max_crashes=8)
     i = 0
     n = len(lines)
     while i < n:
-        if len(crashes) >= max_crashes:
+        if len(crashes) >= max_crashes or sum(1 for c in crashes if c['kind'] == 'timeout') >= max_hangs:
             break
         chunk = lines[i:]
         data = ('\n'.join(chunk) + '\n').encode()
@@ -435,6 +435,9 @@ def evaluate(P, cases, exes, want_model=True, budget_s=600, stop_after=40, chunk
         for off in range(0, len(idxs), chunk):
             if nfail >= stop_after:
                 stopped = stopped or f'stopped after {nfail} oracle failures'
+                break
+            if sum(1 for c in crashes if c.get('kind') == 'timeout') >= 3:
+                stopped = stopped or 'stopped after 3 hangs (each one costs the stall timeout)'
                 break
             if time.time() > t_end:
                 stopped = stopped or f'time budget of {budget_s}s used up'
